@@ -85,6 +85,7 @@ func (it *Iterator) Refresh() {
 		it.iter.Close()
 		it.iter = it.snap.db.store.NewIterator(it.snap.db.iterCmp, it.buf)
 		it.iter.Seek(unsafe.Pointer(itm))
+		it.skipUnwanted()
 	}
 }
 
